@@ -330,6 +330,8 @@ type Report struct {
 	Wall         time.Duration
 	Funcs        map[string]int
 	Stubs        map[string]int
+	Emits        map[string]int // "site|method|metric name|label names" -> executions (metric emissions of the code under test)
+	EmitSites    []string       // every call site of metrics.Metrics.Emit* in kubebrain's own packages (static)
 	Samples      []PathSample
 	Steps        int64
 	Truncated    bool
@@ -356,6 +358,46 @@ type explorer struct {
 	rep     *Report
 	stop    bool
 	violKey map[string]*Violation
+}
+
+// EmitSites lists every call site of metrics.Metrics.Emit{Counter,Gauge,Histogram} in the
+// module's own packages (harness packages excluded), from the SSA of the current source.
+func (e *Engine) EmitSites() []string {
+	seen := map[string]bool{}
+	for fn := range ssautil.AllFunctions(e.Prog) {
+		if fn.Pkg == nil || !strings.HasPrefix(fn.Pkg.Pkg.Path(), e.ModPath+"/") || strings.Contains(fn.Pkg.Pkg.Path(), "/pkg/zz") {
+			continue
+		}
+		for _, b := range fn.Blocks {
+			for _, ins := range b.Instrs {
+				ci, ok := ins.(ssa.CallInstruction)
+				if !ok || ci.Common().Method == nil || !isEmit(ci.Common().Method) {
+					continue
+				}
+				p := e.Prog.Fset.Position(ins.Pos())
+				if strings.HasSuffix(p.Filename, "_test.go") || strings.Contains(p.Filename, "zz_verif") {
+					continue
+				}
+				f := p.Filename
+				if i := strings.LastIndex(f, "/pkg/"); i >= 0 {
+					f = f[i+1:]
+				}
+				name := "?"
+				if args := ci.Common().Args; len(args) > 0 {
+					if c, ok := args[0].(*ssa.Const); ok && c.Value != nil {
+						name = strings.Trim(c.Value.ExactString(), "\"")
+					}
+				}
+				seen[fmt.Sprintf("%s:%d|%s", f, p.Line, name)] = true
+			}
+		}
+	}
+	out := make([]string, 0, len(seen))
+	for s := range seen {
+		out = append(out, s)
+	}
+	sort.Strings(out)
+	return out
 }
 
 func (e *Engine) Explore(fn *ssa.Function, cfg Config) *Report {
@@ -480,6 +522,12 @@ func (x *explorer) merge(res *runResult) {
 	}
 	for s, n := range res.in.stubsSeen {
 		rep.Stubs[s] += n
+	}
+	for s, n := range res.in.emitsSeen {
+		if rep.Emits == nil {
+			rep.Emits = map[string]int{}
+		}
+		rep.Emits[s] += n
 	}
 	for c := range r.covers {
 		rep.Covers[c]++
